@@ -517,7 +517,12 @@ class DiameterURIType(OctetStringType):
 
     def parser_data(self, data):
         if isinstance(data, bytes):
-            data = data.decode("utf-8")
+            try:
+                data = data.decode("utf-8")
+
+            except UnicodeDecodeError:
+                raise DataTypeError("invalid data format. It does not "\
+                                    "comply to the DiameterURI syntax")
 
         elif isinstance(data, str):
             data = data
